@@ -567,7 +567,7 @@ where
             // exactly the triples of the selected quads; a triple present in k selected graphs may
             // show up between 1 and k times (the union view is not declared a SetGraph)
             let same_keys = got_counts.keys().eq(want_counts.keys());
-            let counts_ok = got_counts.iter().all(|(t, c)| *c >= 1 && *c <= want_counts[t].max(1));
+            let counts_ok = got_counts.iter().all(|(t, c)| *c >= 1 && *c <= want_counts.get(t).copied().unwrap_or(0).max(1));
             ensure!(
                 same_keys && (counts_ok || !m.set),
                 o("union_view"),
